@@ -59,7 +59,7 @@ class MemCacheCtx:
 
 class UpdateInMemoryCache(PContract):
     target = f"{PRJ}.Project._update_in_memory_cache"
-    properties = ("C08", "C09")
+    properties = ("C01", "C08", "C09")
     callees = {f"{PRJ}.Project._job_dirs": stub_job_dirs, f"{PRJ}.Project._get_statepoint_from_workspace": stub_get_sp_from_ws}
     solver_timeout_ms = 6000
 
